@@ -25,6 +25,24 @@ func init() {
 		},
 	})
 	register(&propDef{
+		ID: "C12",
+		Explain: "Decision-table comparison on HandleMsg6: the (inner message type, rapid commit) → reply constructor map extracted from all abstract states equals the frozen RFC table (SOLICIT→ADVERTISE, SOLICIT+RapidCommit→REPLY, REQUEST/CONFIRM/RENEW/REBIND/RELEASE/INFORMATION-REQUEST→REPLY, everything else no constructor), constructors are applied to the decapsulated message (V6.TYPEMAP); a send is reached only with parse ok ∧ inner ok ∧ supported type ∧ reply built ∧ resp ≠ nil and every silent exit has one of them false (V6.FILTER); relayed ⇒ NewRelayReplFromRelayForw(received relay, chain result), direct ⇒ chain result unchanged (V6.RELAY); destination is the peer parameter (V6.DEST); the control message pins the bound, else the receiving interface exactly for link-local peers (V6.PIN).",
+		Trusted: trustedBase,
+		Assume:  []string{"per-layer mirroring of link/peer address and Interface-ID is NewRelayReplFromRelayForw's job (codec, trusted)", "transaction id / client id echo is NewReplyFromMessage's / NewAdvertiseFromSolicit's job (codec, trusted)"},
+		Run: func(c *Ctx) {
+			ruleV6(c, "C12.")
+			if h := analyseHandle6(c); h != nil {
+				reportDispatch(c, "C12.V6.DISPATCH", h.di)
+				ruleSentIsChainResult(c, "C12.V6.SENT-IS-CHAIN-RESULT", h.fn, h.di)
+			}
+			c.R.Floor("C12.V6.TYPEMAP", 11)
+			c.R.Floor("C12.V6.FILTER", 2)
+			c.R.Floor("C12.V6.RELAY", 1)
+			c.R.Floor("C12.V6.DEST", 1)
+			c.R.Floor("C12.V6.PIN", 1)
+		},
+	})
+	register(&propDef{
 		ID: "C13",
 		Explain: "Structural rules for the plugin chain: LoadPlugins' two loops range over conf.ServerK.Plugins under ServerK != nil, abort on registry miss / setup error / nil handler, skip nil SetupK, and append exactly one setup result per item in order (CHAIN.LOAD, checked per loop iteration on all abstract paths); config.parsePlugins appends one PluginConfig per list item (CHAIN.PARSE-ORDER); HandleMsg4/6 have one range loop over l.handlers calling h(request, running response) once, leaving on stop or exhaustion only, and what is sent is the loop's exit value guarded by resp != nil (CHAIN.DISPATCH / SENT); Start gives every listener the LoadPlugins result of its protocol (CHAIN.SHARED); every built-in handler returns nil only together with stop (CHAIN.RETNIL on every abstract return path).",
 		Trusted: trustedBase,
